@@ -1,7 +1,7 @@
 """C03 - exactly-once disconnect, one access record, sends after close are no-ops."""
 from __future__ import annotations
 
-from typing import Any, Dict, List
+from typing import Any, Dict, List, Optional
 
 from ..apps import AppHost, Instance
 from ..core import Tape
@@ -176,11 +176,14 @@ def _run_ws(tape: Tape, world: World, host: AppHost, out: Outcome) -> Outcome:
     host.drain_leftovers()
     out.sample = {"worker": world.worker, "ws": True, "carrier": carrier, "shape": shape, "messages": nmsg,
                   "closing": closing, "trigger_at": t_end}
-    _check_ws(world, host, sess, shape, out)
+    conn = script.conn
+    closed_at = conn.server.closed_at if conn is not None else None
+    _check_ws(world, host, sess, shape, out, closed_at)
     return finish_outcome(world, out)
 
 
-def _check_ws(world: World, host: AppHost, sess: Any, shape: int, out: Outcome) -> None:
+def _check_ws(world: World, host: AppHost, sess: Any, shape: int, out: Outcome,
+              closed_at: Optional[float] = None) -> None:
     def bad(rule: str, msg: str, **key: Any) -> None:
         out.violations.append(Violation(rule, msg, dict(key, worker=world.worker, proto="ws-" + sess.carrier)))
 
@@ -201,6 +204,11 @@ def _check_ws(world: World, host: AppHost, sess: Any, shape: int, out: Outcome) 
         # an instance cut down by the forced cancel at the end of the grace period is not owed anything
         forced = inst.end == "cancelled" and world.trigger_at is not None and inst.end_time is not None \
             and inst.end_time >= world.trigger_at + world.config.graceful_timeout - 1e-6
+        if forced and closed_at is not None and closed_at < world.trigger_at - 0.01:
+            # the connection was over well before shutdown began: the instance had been owed its disconnect since
+            # then, the forced cancel only ended its wait
+            forced = False
+            world.sim.probe("c03.ws.closed_long_before_forced_cancel")
         if n_disc == 0 and world.result == "returned" and inst.end in ("cancelled", None) and kinds and not forced:
             bad("disconnect-missing", f"websocket instance was never sent websocket.disconnect (ended: {inst.end}, "
                 f"delivered: {kinds[-3:]})", cause="recv-queue-full" if full else "other")
